@@ -104,7 +104,7 @@ def run(chk):
         docs.append(t)
         docs.append(gen.mutate(rng, t, EDIT))
     docs += [b"K:\n .\n a\n", b"K: a\n b\n", b"K: a\n\n\nL: b\n", b"K:\n a\n", b"K: a\n .\n .\n b\n", b"K:\n  a\n", b"K: \n"]
-    docs = [d for d in docs if not debgen.has_uspace(d)]
+    docs += [b"K: a\n \xc2\xa0\n b\n", b"K:\xc2\xa0x\n", b"K: a\n\xc2\xa0b: c\n"]
     r0 = chk.run_impl([("rall", [t]) for t in docs])
     acc = [(t, r) for t, r in zip(docs, r0) if r.startswith("ok")]
     cc = [("wcycle", [t]) for t, _ in acc]
@@ -137,7 +137,7 @@ def run(chk):
             chk.violate(v)
     chk.assumptions += ["values are sequences of text lines: no line is '.' alone or whitespace-only (deb822 cannot represent them)",
                         "a value whose first logical line is empty while more lines follow is excluded: known finding empty-first-line",
-                        "non-ASCII Unicode space encodings are outside the model and not generated"]
+                        "the executed writer/reader model handles Unicode whitespace exactly as Go does (R2u)"]
 
 
 def replay(chk, d):
